@@ -76,15 +76,16 @@ def gen_field_ops(ctx):
     for W in (32, 64):
         for N in static_widths(W):
             for F in static_firsts(W, N, True):
-                for _ in range(48 if th else 4):
-                    c0 = r.choice([0, (1 << W) - 256, r.below((1 << W) - 256)])
-                    ops.append("ssweep %d %d %d %d 256 %d %d" % (W, F, N, c0, r.below(1 << N), 2 * r.below(1 << 15) + 1))
+                cnt = 4096 if th else 256
+                for _ in range(64 if th else 4):
+                    c0 = r.choice([0, (1 << W) - cnt, r.below((1 << W) - cnt)])
+                    ops.append("ssweep %d %d %d %d %d %d %d" % (W, F, N, c0, cnt, r.below(1 << N), 2 * r.below(1 << 15) + 1))
     # 2. static reference, single operations
     for W in (8, 16, 32, 64):
         for N in static_widths(W):
             for F in static_firsts(W, N, False):
                 for op in ["set", "setr", "setc", "setd", "swp", "swv", "get"] + ARITH:
-                    for _ in range(6 if th else 2):
+                    for _ in range(12 if th else 2):
                         field, other = patterned(r, W // 8), patterned(r, W // 8)
                         if op in ("set", "swv"): arg = r.choice([0, (1 << N) - 1, r.below(1 << N)])
                         elif op == "setd":
@@ -112,15 +113,16 @@ def gen_field_ops(ctx):
                 # (a) the smallest buffer that holds the channel (b) a full field with guard bytes around it
                 ops.append("dsweep %d %d %d 0 %d %d %d %d %d %s" % (W, N, n, first, 0 if n == 1 else r.below(65536 - 4096), 256 if n == 1 else (4096 if th else 512),
                                                                    r.below(1 << N), 2 * r.below(128) + 1, rhex(r, n)))
-                for _ in range(8 if th else 1):
-                    ops.append("dsweep %d %d %d 1 %d %d 256 %d %d %s" % (W, N, fb + 2, first, r.below(65536 - 256), r.below(1 << N), 2 * r.below(128) + 1, rhex(r, fb + 2)))
+                for _ in range(16 if th else 1):
+                    cnt = 1024 if th else 256
+                    ops.append("dsweep %d %d %d 1 %d %d %d %d %d %s" % (W, N, fb + 2, first, r.below(65536 - cnt), cnt, r.below(1 << N), 2 * r.below(128) + 1, rhex(r, fb + 2)))
     # 4. run-time first-bit reference, single operations (second operand: any disjoint window that fits the buffer)
     for W in (8, 16, 32, 64):
         fb = W // 8
         for N in dyn_widths(W):
             for first in dyn_firsts(W, N):
                 for op in ["set", "setr", "setc", "swp", "swv", "get"] + ARITH:
-                    for _ in range(4 if th else 1):
+                    for _ in range(8 if th else 1):
                         tight = r.chance(1, 2)
                         ptr = 0 if tight else r.below(3)
                         ln = ptr + data_size(first, N, fb) if tight else ptr + fb + r.below(3)
@@ -145,7 +147,7 @@ def gen_field_ops(ctx):
 
 def gen_pixel_ops(ctx):
     r, th, ops = ctx.rng, ctx.thorough(), []
-    reps = 6 if th else 2
+    reps = 16 if th else 2
     for name, c in PP.items():
         _, fb, ws, mp = c; d = desc(c)
         for k, w in enumerate(ws):
@@ -196,7 +198,7 @@ def gen_pixel_ops(ctx):
         for off in range(8):
             for n in range(-40, 41): ops.append("iadv %s %s %d %d" % (name, d, off, n))
             if th:
-                for _ in range(40): ops.append("iadv %s %s %d %d" % (name, d, off, r.range(-4000, 4000)))
+                for _ in range(200): ops.append("iadv %s %s %d %d" % (name, d, off, r.choice([r.range(-4000, 4000), r.range(-100000, 100000)])))
             for k in (0, 1, 2, 3, 7, 8, 9, 40): ops.append("iinc %s %s %d %d" % (name, d, off, k))
     return ops
 
@@ -223,6 +225,26 @@ def values_judged(op):
     if w[0] == "ssweep": return int(w[5])
     if w[0] == "dsweep": return int(w[7])
     return 1
+
+def shrink_sweeps(ctx, bins):
+    """a failing sweep names the index of the first failing content: re-run that single content and report it"""
+    import re
+    out = []
+    for f in ctx.failures:
+        w = f["op"].split(); m = re.search(r" i=(\d+)", f.get("clause", ""))
+        if w[0] in ("ssweep", "dsweep") and m:
+            i = int(m.group(1)); k = 4 if w[0] == "ssweep" else 6          # positions of c0 cnt v0 vstep
+            N = int(w[3] if w[0] == "ssweep" else w[2])
+            c0, v0, vs = int(w[k]), int(w[k + 2]), int(w[k + 3])
+            w2 = list(w); w2[k], w2[k + 1], w2[k + 2], w2[k + 3] = str(c0 + i), "1", str((v0 + i * vs) % (1 << N)), "0"
+            op = " ".join(w2); name = route(op)
+            sub = copy.copy(ctx); sub.broken, sub.failures, sub.known_hits, sub.cov = [], [], [], {}
+            if bins.get(name, (None,))[0] is not None:
+                vlib.correspond(sub, bins[name][0], "drv_C08", [op], label="shrunk")
+                if sub.failures: f = sub.failures[0]
+        out.append(f)
+        if len(out) >= 40: break
+    ctx.failures[:len(out)] = out
 
 BINARIES = [("field%d" % p, "harness/C08/field.cpp", p) for p in (1, 2, 3, 4)] + [("pixel%d" % p, "harness/C08/pixel.cpp", p) for p in (1, 2, 3)]
 
@@ -266,6 +288,7 @@ def run(ctx, ops=None):
             if impl:
                 for i in (0, len(impl) // 2, len(impl) - 1):
                     samples.append({"op": groups[name][i][:160], "impl": impl[i][:120], "model": model[i][:120]})
+    shrink_sweeps(ctx, bins)
     kinds = {}
     for o in ops: kinds[o.split()[0]] = kinds.get(o.split()[0], 0) + 1
     distinct = len({o for o in ops if nontrivial(o)})
